@@ -206,6 +206,7 @@ struct State {
   int64_t out_accepted = 0;
   // heap
   std::unordered_map<void *, size_t> live;
+  std::unordered_set<void *> freed;     // blocks of this run that were freed and not handed out again: a second free() is reported, not passed to libc
   size_t live_bytes = 0;
   // env copies
   std::vector<char *> envbuf;
@@ -1001,6 +1002,7 @@ void *simw_malloc(size_t n) { SHIM;
     char *pp = pool_get(n, s.plan->junk);
     if (!pp) return nullptr;
     s.live[pp] = n;
+    s.freed.erase(pp);
     s.live_bytes += n;
     if (s.live_bytes > s.res->peak_heap) s.res->peak_heap = s.live_bytes;
     return pp;
@@ -1014,6 +1016,7 @@ void *simw_malloc(size_t n) { SHIM;
   memcpy(p + n, canary_bytes, CANARY);
 #endif
   s.live[p] = n;
+  s.freed.erase(p);
   s.live_bytes += n;
   if (s.live_bytes > s.res->peak_heap) s.res->peak_heap = s.live_bytes;
   return p;
@@ -1022,8 +1025,19 @@ void simw_free(void *p) { SHIM;
   if (!p) return;
   State &s = *S;
   auto it = s.live.find(p);
-  if (it == s.live.end()) { free(p); return; }   // not ours (e.g. strdup from libc)
+  if (it == s.live.end()) {
+#ifndef SIM_ASAN     // (the ASan builds pass it on: ASan reports the double free with both stacks)
+    if (s.freed.count(p)) {     // glibc would abort ("double free or corruption") or corrupt its heap silently; here it is always reported
+      if (s.res->monitor.empty()) s.res->monitor = "heap: double free";
+      s.res->aborted = true;
+      if (s.res->abort_msg.empty()) s.res->abort_msg = "free(): double free detected by the tracking allocator";
+      end_run(X_SIGNAL, SIGABRT);
+    }
+#endif
+    free(p); return;   // not ours (e.g. strdup from libc)
+  }
   heap_check_block(p, it->second);
+  s.freed.insert(p);
   s.live_bytes -= it->second;
   size_t blk_n = it->second;
   s.live.erase(it);
